@@ -143,6 +143,9 @@ pub fn gen(prop: &str, seed: u64, thorough: bool, out: &mut impl Write) {
             } else if roll < 63 {
                 let page = g.any_page(k); let fl = g.pflags();
                 ops.extend([6, k, g.rng.pick(&[4u64, 3, 2]), page, fl]);
+                // look at the rights of the page right away (and of a neighbour under another entry)
+                ops.extend([12, page]);
+                ops.extend([12, page ^ (1 << 21)]);
             } else if roll < 70 {
                 let page = g.any_page(k);
                 ops.extend([7, k, page]);
@@ -260,6 +263,8 @@ pub fn judge(c: &[u64], a: &[i128]) -> (Vec<(&'static str, &'static str)>, Vec<&
     let mut nontrivial_c09 = false;
     // independent bookkeeping of which page tables exist: (level 3|2|1, base of the region the table covers) -> frame
     let mut tables: BTreeMap<(u64, u64), u64> = BTreeMap::new();
+    // flags of the parent entry that points to each table (as the calls dictate: requested at creation, widened by later maps, replaced by set_flags_p*_entry)
+    let mut pflags_of: BTreeMap<(u64, u64), u64> = BTreeMap::new();
     let mut expected_freed: Vec<u64> = vec![];
     let mut probes_follow_cleanup = false;
     let mut failed_regions: HashSet<u64> = HashSet::new();
@@ -270,7 +275,13 @@ pub fn judge(c: &[u64], a: &[i128]) -> (Vec<(&'static str, &'static str)>, Vec<&
     for (i, op) in h.ops.iter().enumerate() {
         let Some(ans) = answers.get(i) else { break };
         let nf_before = fails.len();
-        if ans.len() == 1 && ans[0] == -1 { fail!("C01", "a mapper call panicked"); break; }
+        if ans.len() == 1 && ans[0] == -1 {
+            fail!("C01", "a mapper call panicked");
+            fail!("C02", "a mapper call panicked instead of reporting a documented outcome");
+            fail!("C09", "a mapper call panicked where it should only touch page-table memory");
+            if matches!(op[0], 10 | 11) { fail!("C10", "clean_up panicked"); }
+            break;
+        }
         if ans.len() < 2 { break; }
         let (res, calls, freed) = (&ans[..ans.len() - 2], ans[ans.len() - 2], ans[ans.len() - 1]);
         if res.first() == Some(&-20) { fail!("C09", "a recursive-mapper access did not resolve to a page table of the hierarchy (page fault)"); break; }
@@ -285,14 +296,22 @@ pub fn judge(c: &[u64], a: &[i128]) -> (Vec<(&'static str, &'static str)>, Vec<&
             let missing = (k + 1..=3).filter(|level| !tables.contains_key(&(*level, page & !(SPAN[*level as usize] - 1) & 0x0000_ffff_ffff_ffff))).count() as i128;
             if d_calls > missing { fail!("C09", "a frame was requested although the page table it would become already exists"); }
             if ok && d_calls != missing { fail!("C09", "a successful mapping must request exactly one frame per missing table"); }
+            let pf = if op[0] == 2 { op[5] } else { (if op[0] == 3 { op[3] } else { op[4] }) & 7 };
             for level in (k + 1..=3).rev() {
                 let base = page & !(SPAN[level as usize] - 1) & 0x0000_ffff_ffff_ffff;
-                if tables.contains_key(&(level, base)) { continue; }
+                if tables.contains_key(&(level, base)) {
+                    let e = pflags_of.entry((level, base)).or_insert(0);
+                    if pf != 0 && *e & pf != pf { *e |= pf; }
+                    continue;
+                }
+                // a huge mapping in the slot: the walk stops here (ParentEntryHugePage), nothing below exists
+                if m.keys().any(|(mk, mp)| *mk == level && (mp & 0x0000_ffff_ffff_ffff) == base) { break; }
                 if used >= d_calls as usize { break; }
                 let f = h.allocs.get(start + used).copied().unwrap_or(u64::MAX);
                 used += 1;
                 if f >= (1 << 63) { break; }
                 tables.insert((level, base), f);
+                pflags_of.insert((level, base), if h.kind == 1 { 3 | pf } else { pf });
             }
             probes_follow_cleanup = false;
         } else if matches!(op[0], 4 | 5 | 6) { probes_follow_cleanup = false; }
@@ -355,7 +374,10 @@ pub fn judge(c: &[u64], a: &[i128]) -> (Vec<(&'static str, &'static str)>, Vec<&
                             had_failure = true;
                             let inside = m.keys().any(|(mk, mp)| *mk > k && page & !(SZ[*mk as usize] - 1) == *mp);
                             if inside && res[0] != -11 { fail!("C02", "unmap of a page inside a larger huge page must report ParentEntryHugePage"); }
-                            if !inside && !m.keys().any(|(mk, mp)| *mk < k && mp & !(SZ[k as usize] - 1) == page) && res[0] != -13 && res[0] != -11 { fail!("C02", "unmap of an unmapped page must report PageNotMapped"); }
+                            // the slot of a huge size may hold a page table (observation O2: ParentEntryHugePage); otherwise the page is simply not mapped
+                            let slot_holds_table = k > 0 && tables.contains_key(&(k, page & 0x0000_ffff_ffff_ffff));
+                            if !inside && !slot_holds_table && res[0] != -13 { fail!("C02", "unmap of an unmapped page must report PageNotMapped"); }
+                            if !inside && slot_holds_table && res[0] != -11 && res[0] != -13 { fail!("C02", "unmap of an unmapped page must report PageNotMapped"); }
                         }
                     }
                 }
@@ -383,6 +405,19 @@ pub fn judge(c: &[u64], a: &[i128]) -> (Vec<(&'static str, &'static str)>, Vec<&
             }
             6 => {
                 let (k, level, page) = (op[1], op[2], op[3]);
+                {
+                    // the documented outcome from the oracle's own bookkeeping
+                    let t = level - 1;
+                    let lo48 = |x: u64| x & 0x0000_ffff_ffff_ffff;
+                    let base = lo48(page) & !(SPAN[t as usize] - 1);
+                    let want: i128 = if (level == 3 && k == 2) || (level == 2 && k != 0) { -11 }
+                        else if m.keys().any(|(mk, mp)| *mk >= t && lo48(*mp) == lo48(page) & !(SZ[*mk as usize] - 1)) { -11 }
+                        else if tables.contains_key(&(t, base)) { 0 } else { -13 };
+                    if res[0] != want {
+                        fail!("C02", "a parent-flag call must succeed exactly on an existing parent entry of that level, report ParentEntryHugePage under/on a huge page and PageNotMapped otherwise");
+                    }
+                    if ok && want == 0 { pflags_of.insert((t, base), op[4]); }
+                }
                 if ok {
                     granted.clear();
                     if res.len() != 1 { fail!("C11", "a parent-flag call must return a flush-all token"); }
@@ -416,6 +451,21 @@ pub fn judge(c: &[u64], a: &[i128]) -> (Vec<(&'static str, &'static str)>, Vec<&
                             else {
                                 if res[0] != (f + (va - page)) as i128 || res[1] != SZ[k as usize] as i128 { fail!("C01", "the hardware walk reaches a different physical address or page size than the history dictates"); }
                                 let leaf = res[2] as u64;
+                                {
+                                    // effective rights = AND over the parent entries (as the calls dictate them) and the leaf
+                                    let lo48 = |x: u64| x & 0x0000_ffff_ffff_ffff;
+                                    let (mut w, mut u) = (leaf & 2 != 0, leaf & 4 != 0);
+                                    let mut known_all = true;
+                                    for level in (k + 1..=3).rev() {
+                                        match pflags_of.get(&(level, lo48(va) & !(SPAN[level as usize] - 1))) {
+                                            Some(pf) => { w &= pf & 2 != 0; u &= pf & 4 != 0; }
+                                            None => known_all = false,
+                                        }
+                                    }
+                                    if known_all && (res[3] != w as i128 || res[4] != u as i128) {
+                                        fail!("C01", "the effective writable/user rights along the walk differ from what the map and parent-flag calls dictate for the parent entries of this address");
+                                    }
+                                }
                                 if let Some(g) = granted.get(&(k, page)) {
                                     if g & 2 != 0 && leaf & 2 != 0 && res[3] != 1 { fail!("C01", "the effective writable right along the walk must include the parent flags requested by the map call"); }
                                     if g & 4 != 0 && leaf & 4 != 0 && res[4] != 1 { fail!("C01", "the effective user right along the walk must include the parent flags requested by the map call"); }
@@ -466,6 +516,7 @@ pub fn judge(c: &[u64], a: &[i128]) -> (Vec<(&'static str, &'static str)>, Vec<&
                             let holds_table = tables.keys().any(|(tl, tb)| *tl + 1 == level && tb & !(span - 1) == base);
                             if !holds_mapping && !holds_table {
                                 expected_freed.push(tables.remove(&(l, base)).unwrap());
+                                pflags_of.remove(&(l, base));
                             }
                         }
                     }
